@@ -21,9 +21,37 @@ ASSUMPTIONS = ["a directory source colliding with an existing directory may be a
 EXIST_KINDS = ["file", "dir", "fifo", "sock", "link-live", "link-dangling", "link-to-dir"]
 
 
+def gen_single_T(r, count):
+    """-n with -T: one source onto one existing path."""
+    for i in range(count):
+        driver = ["parfile", "parblock"][i % 2]
+        sk = r.choice(["f", "fbig", "l", "fifo", "d"])
+        spec = {"f": [{"p": "n00", "k": "f", "size": 500, "seed": 3, "segs": None}], "fbig": [{"p": "n00", "k": "f", "size": 200000, "seed": 4, "segs": None}],
+                "l": [{"p": "n00", "k": "l", "target": "nowhere"}], "fifo": [{"p": "n00", "k": "fifo"}],
+                "d": [{"p": "n00", "k": "d"}, {"p": "n00/inner", "k": "f", "size": 9, "seed": 5, "segs": None}]}[sk]
+        ek = r.choice(["file", "file", "link-live", "link-dangling", "fifo"] + (["dir"] if sk == "d" else []))
+        pre = [{"p": "elsewhere", "k": "d"}, {"p": "elsewhere/real", "k": "f", "size": 12, "seed": 5, "segs": None}]
+        if ek == "file":
+            pre.append({"p": "dst", "k": "f", "size": 77, "seed": 9, "segs": None, "mode": 0o640, "mtime_ns": 1_000_000_000_000_000_001})
+        elif ek == "dir":
+            pre += [{"p": "dst", "k": "d"}, {"p": "dst/inner", "k": "f", "size": 3, "seed": 8, "segs": None}, {"p": "dst/other", "k": "f", "size": 3, "seed": 7, "segs": None}]
+        elif ek == "fifo":
+            pre.append({"p": "dst", "k": "fifo"})
+        elif ek == "link-live":
+            pre.append({"p": "dst", "k": "l", "target": "elsewhere/real"})
+        else:
+            pre.append({"p": "dst", "k": "l", "target": "elsewhere/created-through-link"})
+        extra = r.choice([[], [], ["--backup", "numbered"], ["--fsync"], ["--no-perms"]])
+        args = ["--driver", driver, "-w", "2", "--block-size", "16KB", "-n", "-T", "-r"] + extra + ["n00", r.choice(["dst", "./dst", "@ROOT@/dst"])]
+        colls = [[0, sk, ek]] if not (sk == "d" and ek == "dir") else [[0, "d", "dir"]]
+        yield {"spec": spec, "pre": pre, "args": args, "driver": driver, "colls": colls, "pos": "T-single", "plan": {"sched": "free", "sched_seed": 1}, "fs": "ext4", "single_T": True}
+
+
 def gen_cases(tier, seed):
     n = 1000 if tier == "quick" else 12000
     r = random.Random(seed * 67867967 + 8)
+    for c in gen_single_T(r, 120 if tier == "quick" else 1500):
+        yield c
     for i in range(n):
         driver = ["parfile", "parblock"][i % 2]
         k = r.randint(3, 12)
@@ -122,6 +150,8 @@ def run_case(case):
             return res
         post = tree.snapshot(root)
         existing = {p: rec for p, rec in pre.items() if p == "dst" or p.startswith("dst/")}
+        if case.get("single_T") and case["colls"][0][1] == "d" and case["colls"][0][2] == "dir":
+            existing = {p: rec for p, rec in existing.items() if p != "dst"}   # merging into an existing directory may touch its mtime
         tag = "driver=%s collisions=%s sched=%s exit=%d" % (case["driver"], case["colls"], case["plan"]["sched"], run.status)
         # (a) snapshot of pre-existing entries
         for p, a in sorted(existing.items()):
